@@ -8,7 +8,7 @@ import (
 func (core *JApiCore) UserTypesData() map[string]*jschema.JSchema {
 	ut := make(map[string]*jschema.JSchema, core.userTypes.Len())
 	_ = core.userTypes.Each(func(k string, s schema.Schema) error {
-		if ss, ok := s.(*jschema.JSchema); ok {
+		if ss, ok := s.(*jschema.JSchema); ok && k != "" {
 			ut[k] = ss
 		}
 		return nil
